@@ -1109,6 +1109,10 @@ def run(ctx):
     src_obs, src_info = srctie.obligations(ctx, "labels", "C09")
     rep.add_obligations(src_obs)
     rep.extra["source_tie"] = src_info
+    # source tie, send side: Context.requeue and the label loop of AsyncKicker._prepare_message; srcproofs/Src_labels_send_C09.v
+    snd_obs, snd_info = srctie.obligations(ctx, "labels_send", "C09")
+    rep.add_obligations(snd_obs)
+    rep.extra["source_tie_send"] = snd_info
     cc = corpus_cases()
     if cc:
         explore(ctx, rep, [c for _, c in cc], "corpus")
